@@ -31,7 +31,8 @@ OP = "trace_chains"
 # ---- the call under test --------------------------------------------------------------------------------------
 def build_motls(case):
     """Entry and exit lists as Motl objects.  variant bit 0: part of every position is carried by the shift columns;
-    bit 1: the lists are handed over as DataFrames."""
+    bit 1: the lists are handed over as DataFrames (row labels varied by variant // 8); bit 2: trace_chains is called
+    twice on the same list objects."""
     from cryocat import cryomotl
     n = len(case["entry"])
     variant = case.get("variant", 0)
@@ -51,15 +52,24 @@ def build_motls(case):
             cols["subtomo_id"][k] = case["sid"][k]
             cols["class"][k] = 1
         df = motlutil.df_from_cols(cols)
-        out.append(df if variant & 2 else cryomotl.Motl(df))
+        # lists handed over as DataFrames may carry any row labels (sorted / sampled / filtered tables)
+        out.append(motlutil.vary_index(df, variant // 8) if variant & 2 else cryomotl.Motl(df))
     return out
 
 
 def call_trace(case):
+    """Returns the projected tables [first call (looked at again after the second), second call on the SAME list objects]
+    when variant bit 2 is set, else [the one call]."""
     from cryocat import ribana
     me, mx = build_motls(case)
     with contextlib.redirect_stdout(io.StringIO()):
-        return ribana.trace_chains(me, mx, case["max"], case["min"])
+        first = ribana.trace_chains(me, mx, case["max"], case["min"])
+        if not case.get("variant", 0) & 4:
+            return [project(first.df)]
+        # the caller's own list objects are re-used: an implementation that modifies its arguments or keeps state
+        # between calls shows up in the second table, or in the first one when it is inspected afterwards
+        second = ribana.trace_chains(me, mx, case["max"], case["min"])
+        return [project(first.df), project(second.df)]
 
 
 def coords(case):
@@ -227,16 +237,16 @@ def run_cases(ctx, cases, corrupt=None):
         if err is not None:
             pending.append(("call_raises", err, case, "-", None))
             continue
-        rows = project(res.df)
-        if corrupt == "field" and not traces and len(rows) > 1:
-            rows[0][0] = rows[1][0]                           # binding demonstration: a particle reported twice
-        if corrupt == "links" and not traces and links:
-            links = links[1:]                                  # binding demonstration: a link missing from the relation
-        traces.append({"id": case.get("id", 0),
-                       "parts": [[int(s), int(t)] for s, t in zip(case["sid"], case["tomo"])],
-                       "link": links, "out": rows})
-        kept.append(case)
-        tables.append(rows)
+        for j, rows in enumerate(res):
+            if corrupt == "field" and not traces and len(rows) > 1:
+                rows[0][0] = rows[1][0]                       # binding demonstration: a particle reported twice
+            if corrupt == "links" and not traces and links:
+                links = links[1:]                              # binding demonstration: a link missing from the relation
+            traces.append({"id": case.get("id", 0),
+                           "parts": [[int(s), int(t)] for s, t in zip(case["sid"], case["tomo"])],
+                           "link": links, "out": rows})
+            kept.append(case)
+            tables.append(rows)
     if not traces:
         classify(ctx, pending)
         return kept, tables
@@ -332,7 +342,7 @@ def gen_case(rng, idx):
     if rng.random() < 0.3:
         rng.shuffle(sid)
     return {"kind": "points", "id": idx, "entry": entry, "exit": exit_, "tomo": tomo, "sid": sid,
-            "max": dmax, "min": dmin, "variant": rng.randrange(4), "mode": mode}
+            "max": dmax, "min": dmin, "variant": rng.randrange(64), "mode": mode}
 
 
 # ---- L1 / L2: the algorithm model -----------------------------------------------------------------------------------
@@ -468,7 +478,7 @@ def run(ctx):
                 reg.append(json.load(fh)["case"])
         run_cases(ctx, reg)
     if want("l3"):
-        total = ctx.pick(100, 1500)
+        total = ctx.pick(80, 1500)
         batch = 250
         done = 0
         while done < total:
